@@ -298,78 +298,79 @@ Definition classify (batch : list entry) : N :=
   else if sig_k5 batch then 6
   else 1.
 
-Definition bobs_zero : bobs := BObs (BOk []) 0 0.
-Definition ref_at (c : c13_case) (j : nat) : option bobs := nth_error (c_ref c) j.
-(* digest / applied index after j reference commands *)
-Definition digest_after (c : c13_case) (j : nat) : N :=
-  match j with O => c_d0 c | S j' => match ref_at c j' with Some o => bo_digest o | None => 0 end end.
+(* ---- a partition run against the reference run --------------------------------------------------- *)
+
+(* walking state: how many reference commands are behind us, the digest after them, and the
+   index of the last of them whose result is not stale_meta (0: none) *)
+Record wst := WSt { w_pos : nat; w_digest : N; w_floor : nat }.
+
 Definition is_fatal (o : bobs) : bool := match bo_out o with BFatal _ => true | BOk _ => false end.
 
-(* first reference position in [pos, pos+len) that is fatal *)
-Fixpoint first_fatal (c : c13_case) (pos len : nat) : option nat :=
-  match len with
-  | O => None
-  | S l => match ref_at c pos with
-           | Some o => if is_fatal o then Some pos else first_fatal c (S pos) l
-           | None => None
-           end
+Definition seg_step (st : wst) (o : bobs) : wst :=
+  match bo_out o with
+  | BOk [(cls, _)] =>
+      WSt (S (w_pos st)) (bo_digest o) (if cls =? R_STALE then w_floor st else S (w_pos st))
+  | _ => WSt (S (w_pos st)) (bo_digest o) (S (w_pos st))
   end.
 
-Fixpoint ref_results (c : c13_case) (pos len : nat) : option (list (N * N)) :=
-  match len with
-  | O => Some []
-  | S l => match ref_at c pos with
-           | Some (BObs (BOk [r]) _ _) =>
-               match ref_results c (S pos) l with Some rs => Some (r :: rs) | None => None end
-           | _ => None
-           end
+(* the per-command results of a segment of the reference run, None if one of them is fatal *)
+Fixpoint seg_results (seg : list bobs) : option (list (N * N)) :=
+  match seg with
+  | [] => Some []
+  | o :: r => match bo_out o with
+              | BOk [x] => match seg_results r with Some xs => Some (x :: xs) | None => None end
+              | _ => None
+              end
+  end.
+
+(* the reference commands before the first fatal one *)
+Fixpoint before_fatal (seg : list bobs) : list bobs :=
+  match seg with
+  | [] => []
+  | o :: r => if is_fatal o then [] else o :: before_fatal r
   end.
 
 Definition res_eqb (a b : N * N) : bool := (fst a =? fst b) && (snd a =? snd b).
 
-(* the applied index may lag behind the batch end only over commands whose reference result is stale_meta *)
-Fixpoint lag_ok (c : c13_case) (from len : nat) : bool :=
-  match len with
-  | O => true
-  | S l => match ref_at c from with
-           | Some (BObs (BOk [(cls, _)]) _ _) => (cls =? R_STALE) && lag_ok c (S from) l
-           | _ => false
-           end
-  end.
-
-Definition applied_ok (c : c13_case) (stop : nat) (applied : N) : bool :=
-  let a := N.to_nat applied in
-  Nat.leb a stop && lag_ok c a (stop - a).
-
-(* 0, or the code of the first departing batch *)
-Fixpoint walk (c : c13_case) (pos : nat) (sizes : list N) (obs : list bobs) : N :=
+(* 0, or the code of the first departing batch.  [ref], [log]: what is left of the reference run
+   and of the log.  A batch whose reference commands all succeeded must return exactly their
+   results, reach the reference digest, and have a durable applied index between the last
+   non-stale command and the batch end (a batch whose commit is stale_meta commits nothing, so
+   the watermark may lag over stale_meta commands).  A batch containing the reference run's fatal
+   command must fail, and leave either the store of the batch start or (stale fallback: the
+   commands are re-applied one by one) the reference store before the failing command; the run
+   ends there. *)
+Fixpoint walk (st : wst) (ref : list bobs) (log : list entry) (sizes : list N) (obs : list bobs) : N :=
   match sizes, obs with
   | [], [] => 0
   | [], _ :: _ => 1
   | _ :: _, [] => 1
   | s :: sr, o :: orest =>
     let len := N.to_nat s in
-    let batch := firstn len (skipn pos (c_log c)) in
-    match first_fatal c pos len with
-    | Some j =>
+    let seg := firstn len ref in
+    let batch := firstn len log in
+    match seg_results seg with
+    | Some rs' =>
+        if Nat.eqb (length seg) len then
+          let st' := fold_left seg_step seg st in
+          match bo_out o with
+          | BOk rs =>
+              let a := N.to_nat (bo_applied o) in
+              if list_eqb res_eqb rs rs' && (bo_digest o =? w_digest st')
+                 && Nat.leb (w_floor st') a && Nat.leb a (w_pos st')
+              then walk st' (skipn len ref) (skipn len log) sr orest
+              else classify batch
+          | BFatal _ => classify batch
+          end
+        else classify batch
+    | None =>
+        let stf := fold_left seg_step (before_fatal seg) st in
         match bo_out o with
         | BFatal _ =>
-            (* rejected, and nothing (or exactly the commands before the failing one: stale
-               fallback) was applied; the error class of a multi-command batch may be that of
-               another malformed command of the batch, so it is not compared *)
-            if ((bo_digest o =? digest_after c pos) || (bo_digest o =? digest_after c j))
+            if ((bo_digest o =? w_digest st) || (bo_digest o =? w_digest stf))
                && match orest with [] => true | _ => false end
             then 0 else classify batch
         | BOk _ => classify batch
-        end
-    | None =>
-        match bo_out o, ref_results c pos len with
-        | BOk rs, Some rs' =>
-            if list_eqb res_eqb rs rs' && (bo_digest o =? digest_after c (pos + len))
-               && applied_ok c (pos + len) (bo_applied o)
-            then walk c (pos + len) sr orest
-            else classify batch
-        | _, _ => classify batch
         end
     end
   end.
@@ -413,7 +414,7 @@ Fixpoint ref_ok (c : c13_case) (j : nat) (log : list entry) (obs : list bobs) (p
 (* a reference run that stops early must have stopped on a fatal command *)
 Definition ref_complete (c : c13_case) : bool :=
   Nat.eqb (length (c_ref c)) (length (c_log c))
-  || match ref_at c (pred (length (c_ref c))) with Some o => is_fatal o | None => false end.
+  || match nth_error (c_ref c) (pred (length (c_ref c))) with Some o => is_fatal o | None => false end.
 
 Definition snap_ok (s : snap_obs) : bool :=
   so_ok s && (so_ref s =? so_restored s) && (so_ref_final s =? so_final s).
@@ -428,4 +429,4 @@ Fixpoint max_code (l : list N) : N :=
 Definition C13_monitor (c : c13_case) : N :=
   if negb (ref_ok c 0 (c_log c) (c_ref c) (c_d0 c) 0 && ref_complete c) then 1
   else if negb (forallb snap_ok (c_snaps c)) then 1
-  else max_code (map (fun p => walk c 0 (p_sizes p) (p_obs p)) (c_parts c)).
+  else max_code (map (fun p => walk (WSt 0 (c_d0 c) 0) (c_ref c) (c_log c) (p_sizes p) (p_obs p)) (c_parts c)).
